@@ -22,7 +22,7 @@ def ideal(cfg, workers=8):
     return res
 
 
-def make(pid, quick, thorough, rule, max_paths_quick=1500, neg=None):
+def make(pid, quick, thorough, rule, max_paths_quick=1500, neg=None, concat=None):
     def run(tier, seed):
         cfgs = quick if tier == "quick" else thorough
         jobs = [lambda: ideal("Ideal_quick.cfg" if tier == "quick" else "Ideal_thorough.cfg", workers=4)]
@@ -41,8 +41,24 @@ def make(pid, quick, thorough, rule, max_paths_quick=1500, neg=None):
             if neg[1] not in nres.violated:
                 raise tlc.MachineryError(f"negative control {neg[0]} did not violate {neg[1]}: {nres.violated}")
             cov["negative_control"] = f"{neg[0]} violates {neg[1]} as expected (as-built close keeps unreachable nodes)"
+        if concat:
+            # concatenated half of the property: decided by spec/concat/DrillholeConcat.tla through the C04 engine
+            from .checks import C04
+            exports = concat if tier == "quick" else [(c, v, None) for c, v, _ in concat]
+            cviol, ccov = C04.run_subset(exports, seed)
+            for v in cviol:
+                if v["signature"].startswith("asbuilt:"):
+                    continue        # recorded findings of C04 itself (reported by ./check C04)
+                w = dict(v)
+                w["signature"] = "concat:" + v["signature"]
+                w["case"] = {"concat": v.get("case")}
+                mine.append(w)
+            cov["concatenated_half"] = ccov
+            cov["states"] += ccov["states"]
+            cov["transitions"] += ccov["transitions"]
+            cov["traces_validated_against_impl"] += ccov["paths"]
         cov["rule"] = rule
-        cov["other_property_divergences_seen"] = len(viol) - len(mine)
+        cov["other_property_divergences_seen"] = len(viol) - len(mine) if not concat else len(viol) - len([m for m in mine if not m["signature"].startswith("concat:")])
         if cov["steps_compared"] < 200:
             raise tlc.MachineryError("too few steps replayed")
         return {"level": "model_checking", "violations": mine, "coverage": cov, "assumptions": ASSUME}
@@ -51,6 +67,12 @@ def make(pid, quick, thorough, rule, max_paths_quick=1500, neg=None):
         case = doc["case"]
         if case is None:
             return {"violations": [], "coverage": {"replayed": 0}}
+        if "concat" in case:
+            from .checks import C04
+            rep = C04.replay({"case": case["concat"]})
+            for v in rep["violations"]:
+                v["signature"] = "concat:" + v["signature"]
+            return rep
         item = {"id": 0, "variant": case.get("variant", 0), "init": case["init"], "steps": case["steps"], "prop": pid}
         v = replay_path(item)
         mine = [x for x in v if x.get("prop") is None or pid in x["prop"]]
